@@ -28,7 +28,7 @@ ASSUMPTIONS = [
     "bounded progress: a run still alive 60 s after its last logged event is reported as non-termination; a run killed by the outer watchdog earlier is inconclusive",
     "the explicit-state model clause of the quantifier is NOT decided (different technique); schedule diversity from the grid and delay injection stands in, distinct interleavings are reported",
 ]
-FLOORS = {"quick": {"runs": 40, "delivered": 300, "retirements": 5, "failed_tasks_delivered": 5, "distinct:interleavings": 15, "network_error_tasks": 10, "retirement_waves_held_back": 2},
+FLOORS = {"quick": {"runs": 40, "delivered": 300, "retirements": 5, "failed_tasks_delivered": 5, "distinct:interleavings": 15, "network_error_tasks": 14, "retirement_waves_held_back": 2, "runs_with_tuple_ids": 3},
           "thorough": {"runs": 500, "delivered": 3000, "retirements": 50, "failed_tasks_delivered": 50, "injected_delays": 500,
                        "distinct:interleavings": 150}}
 NPROC = {"quick": 8, "thorough": 16}
@@ -59,6 +59,12 @@ def grid(tier, seed):
              dict(n=12, pool=1, max_tasks=25, net_always=[101, 104], net_wrapped=[106], net_flaky={"102": 2, "108": 3}, raising=[110], api="run"),
              dict(n=6, pool=2, max_tasks=2, net_always=[103], tolerate_fails=False),
              dict(n=6, pool=1, max_tasks=2, net_always=[103], tolerate_fails=False)]
+    # ids as the file front ends submit them: (old path, new path) tuples, with and without a ".cfg" name
+    base += [dict(n=12, pool=3, max_tasks=25, tuple_ids=True), dict(n=12, pool=4, max_tasks=2, tuple_ids=True, api="run", raising=[103]),
+             dict(n=6, pool=1, max_tasks=25, tuple_ids=True)]
+    # a network error that is only the implicit context of the raised error is retried like a bare one
+    base += [dict(n=10, pool=3, max_tasks=25, net_flaky_wrapped={"101": 1, "104": 3}, net_flaky={"102": 2}),
+             dict(n=10, pool=1, max_tasks=25, net_flaky_wrapped={"101": 1, "104": 3}, api="run")]
     runs += base
     nrand = 40 if tier == "quick" else 1500
     for i in range(nrand):
@@ -164,7 +170,9 @@ def judge(spec, res, acc):
     raising = set(spec.get("raising", [])) | net_fail
     tolerate = spec.get("tolerate_fails", True)
     acc.count("runs")
-    acc.count("network_error_tasks", len(net_fail) + len(spec.get("net_flaky", {})))
+    acc.count("network_error_tasks", len(net_fail) + len(spec.get("net_flaky", {})) + len(spec.get("net_flaky_wrapped", {})))
+    if spec.get("tuple_ids"):
+        acc.count("runs_with_tuple_ids")
 
     def want_orig(i):
         if i in set(spec.get("net_always", [])):
